@@ -285,7 +285,20 @@ struct Real {
 /// parse + decompress_with_keys returns (digest), and the table as parsed
 fn digest_views(bytes: &[u8], ks: &TactKeyStore) -> (String, String) {
     let (dec, rows) = match catch(AssertUnwindSafe(|| {
-        <BlteFile as CascFormat>::parse(bytes).map(|p| (p.decompress_with_keys(ks), rows_line(&p))).map_err(|_| ())
+        <BlteFile as CascFormat>::parse(bytes)
+            .map(|p| {
+                let with_keys = p.decompress_with_keys(ks);
+                // the decoder without key store must agree on a container without encrypted chunks
+                // (O only; reported through the decode answer so that the identity clause sees it)
+                if !p.chunks.iter().any(|c| c.mode == CompressionMode::Encrypted) {
+                    let plain = p.decompress();
+                    if plain.as_ref().ok() != with_keys.as_ref().ok() || plain.is_ok() != with_keys.is_ok() {
+                        PLAIN_DIFFERS.store(true, std::sync::atomic::Ordering::SeqCst);
+                    }
+                }
+                (with_keys, rows_line(&p))
+            })
+            .map_err(|_| ())
     })) {
         Ok(Ok((Ok(out), rows))) => (format!("ok {}", dig(&out)), rows),
         Ok(Ok((Err(e), rows))) => (err_class(&e).to_string(), rows),
@@ -293,6 +306,16 @@ fn digest_views(bytes: &[u8], ks: &TactKeyStore) -> (String, String) {
         Err(_) => ("panic".into(), "panic".into()),
     };
     (format!("ok c={} | dec {} | {}", dig(bytes), dec, rows), dec)
+}
+
+/// set by `digest_views` when `decompress()` and `decompress_with_keys()` disagreed on a container
+/// without encrypted chunks; taken (and reported) by the caller that owns the session
+static PLAIN_DIFFERS: std::sync::atomic::AtomicBool = std::sync::atomic::AtomicBool::new(false);
+
+fn take_plain_differs(s: &mut Session, replay: &[String]) {
+    if PLAIN_DIFFERS.swap(false, std::sync::atomic::Ordering::SeqCst) {
+        s.oracle_fail("decompress-differs-from-decompress-with-keys", "decompress() and decompress_with_keys() disagree on a container without encrypted chunks", replay);
+    }
 }
 
 fn spec_of(et: &str, name: &str, iv: &str, key: &str) -> Option<(EncryptionSpec, [u8; 16])> {
@@ -1294,7 +1317,6 @@ fn limit_family(s: &mut Session, rng: &mut Rng, thorough: bool, pool: &[(u64, [u
     // content that does not shrink in the compressing modes: stored chunk = content + 1 + expansion
     run(s, rng, &src, M, "Z", None, "add", CsOp::Checked(M), true, "Z.noise.cs=MAX.piece=MAX");
     run(s, rng, &src, M, "4", None, "add", CsOp::Checked(M), true, "4.noise.cs=MAX.piece=MAX");
-    run(s, rng, &wsrc, M, "Z", Some(0x53), "add", CsOp::Checked(M), false, "E/Z.words.cs=MAX.piece=MAX");
     // single pieces above the maximum in the compressing modes (add_chunk / add_encrypted_data
     // take them "regardless of size"): the decoder must hand back more than MAX_CHUNK_SIZE bytes
     // from one chunk
@@ -1303,6 +1325,7 @@ fn limit_family(s: &mut Session, rng: &mut Rng, thorough: bool, pool: &[(u64, [u
     run(s, rng, &zsrc, M + 1, "4", Some(0x53), "encdata", CsOp::Default, false, "E/4.zeros.add_encrypted_data.piece=MAX+1");
     run(s, rng, &wsrc, M + 1, "Z", Some(0x41), "encdata", CsOp::Default, true, "E/Z.words.add_encrypted_data.piece=MAX+1");
     if thorough {
+        run(s, rng, &wsrc, M, "Z", Some(0x53), "add", CsOp::Checked(M), false, "E/Z.words.cs=MAX.piece=MAX");
         run(s, rng, &wsrc, M, "Z", None, "add", CsOp::Checked(M), true, "Z.words.cs=MAX.piece=MAX");
         run(s, rng, &src, M, "4", Some(0x41), "mixed", CsOp::Checked(M), true, "E/4.noise.cs=MAX.piece=MAX");
         run(s, rng, &src, M, "Z", Some(0x53), "encdata", CsOp::Default, true, "E/Z.noise.add_encrypted_data.piece=MAX");
@@ -1621,6 +1644,7 @@ fn entry_case_digest(s: &mut Session, line: &str, emit: bool, verbose: bool) {
         s.case(None);
         return;
     }
+    take_plain_differs(s, &replay);
     let mut p = Prog::new();
     p.lines = replay.clone();
     p.digest = true;
@@ -2268,6 +2292,7 @@ fn replay(s: &mut Session, lines: &[String], emit: bool, verbose: bool) {
                     s.oracle_fail("build-fails", &format!("build returned {r}"), &rep);
                 }
                 let dec = built.as_ref().map(|b| b.1.clone()).unwrap_or_default();
+                take_plain_differs(s, &rep);
                 q.lines = rep.clone();
                 oracle(s, &q, &resps, built.as_ref().map(|b| &b.0[..]), &dec);
                 param_law(s, &q, &rep);
@@ -2315,7 +2340,7 @@ fn main() {
     let args = Args::parse();
     quiet_panics();
     let mut s = Session::new(&args.out);
-    s.rule = "seeded builder programs of 1..8 calls over {with_compression N/Z/4/E/F, with_chunk_size_unchecked 0/1/2/3/5/16/64/1024/default, with_encryption / without_encryption, add_data, add_mixed_data(None|Some), add_encrypted_data(index = position | foreign), add_chunk(ChunkData::new)} with Salsa20 / ARC4 / unknown cipher types, payload lengths 0, 1, cs-1, cs, cs+1, 2cs, 2cs+1, 3cs+r, random, first byte forced to N/Z/4/E/F in a third of them, constant / periodic / random content; plus an exhaustive sweep of one- and two-call programs over {add_data, add_mixed_data, add_encrypted_data, add_chunk}^2 x payload lengths {0,1,cs-1,cs,cs+1,2cs,2cs+1} x modes x {plain, Salsa20, ARC4}; plus the entry points outside the builder: BlteFile::compress exhaustively over chunk sizes {0,1,2,4,5,64} x lengths {0,1,cs-1,cs,cs+1,2cs,2cs+1,3cs+2} x modes N/Z/4/E/F and seeded random (chunk sizes 0..4096), single_chunk over modes x lengths, multi_chunk / multi_chunk_extended over vectors of 0..6 ChunkData::new chunks (random modes incl. E/F) and over hand-made from_compressed chunks (K only), nested containers as content; plus the family of highly compressible payloads in large single chunks: one chunk of 16 KiB / 32 KiB / 64 KiB / 256 KiB / 1 MiB (thorough: 12 sizes up to 4 MiB incl. 32 KiB +-1) of all-zero / constant / period 2..8 / mode-byte-then-constant / sparse content x modes Z and 4 x routes {add_data plain, add_data under Salsa20, add_data under ARC4, one of add_mixed_data / add_encrypted_data / add_chunk plain or encrypted, BlteFile::compress, BlteFile::single_chunk} (every content kind on every route up to 64 KiB, kinds in turn above; above 256 KiB every other route per mode in the quick tier), chunk size = payload / payload+1 / 2x / default / usize::MAX, half of the builder programs with a small chunk in front, plus 1 MiB at the default chunk size, 3x64 KiB+5 at 64 KiB and 2x32 KiB at 32 KiB (several such chunks, plain / Salsa20 / ARC4), plus one random program in 30 as a large-chunk program (chunk sizes 16 KiB .. 1 MiB / usize::MAX, payload lengths cs-1, cs, cs+1, 2cs+1, cs/2..cs, constant / periodic / sparse content, modes Z / 4, encryption in half of them); plus the family of large chunks of content that does NOT shrink (big.*): one chunk of LCG noise / dictionary-word text / alternating stretches of both at 8 KiB, 32 KiB, 64 KiB, 256 KiB each with -1 / +1, 16 KiB, 85196, 128 KiB, one of 1 MiB -1/0/+1 per content x mode (thorough: all three, and more) and two log-uniform sizes in 4 KiB .. 1 MiB, x modes N / Z / 4 plain and as inner mode under Salsa20 and under ARC4 x routes in rotation {add_data, add_data after the validated with_chunk_size(n), add_mixed_data, add_chunk, BlteFile::compress, BlteFile::single_chunk | add_data under with_encryption, add_mixed_data(Some), add_encrypted_data}, chunk size = payload / payload+1 / 2x / default / huge, half with a small chunk in front, plus payloads split into several such chunks (3x64 KiB+5, 200000 at a validated 64 KiB, 2x32 KiB); payloads are written in generator notation (~<kind><seed>.<off>*<len>) and answered with #len:fnv digests (ops build#, compress#, single#); a rotating sixth of the cases up to 64 KiB+1 and two 256 KiB chunks are evaluated by the Lean model as well, the rest are oracle-only `big` lines (both sides answer `oracle-only`); plus the builder's documented limits (limit.*): with_chunk_size at 0, 1, 1023, 1024, 1025, 16 MiB-1, 16 MiB, 16 MiB+1, 32 MiB, 2^62 (K+O), and oracle-only 16 MiB chunks: chunk size exactly 16 MiB / 16 MiB-1 with one piece of 16 MiB / 16 MiB+1 through add_data (alone, behind a small chunk, split), add_mixed_data, add_chunk (16 MiB and 16 MiB+1), compress, single_chunk in mode N; encrypted full chunks at chunk sizes 16 MiB-17, -16, -15, -1, -0 (thorough: every one of -17..0, both ciphers), add_mixed_data(Some) and add_encrypted_data with 16 MiB and 16 MiB+1; 16 MiB of noise in modes Z and 4 and of words under Salsa20/Z, single pieces of 16 MiB+1 of zeros / words through add_chunk (Z) and add_encrypted_data (Salsa20/4, ARC4/Z); one random program in six that sets a chunk size uses the validated setter at 0 / 1023 / 1024 / 1025 / 2048 / 4096 / 16 MiB / 16 MiB+1; the compression ratios reached are tallied (compress_chunk.ratio.*, compress_chunk.max-ratio.*, extra.max_compression_ratio_mode_*); hand-made containers with a Frame chunk (single-chunk and at every table position, both table formats) and encrypted chunks whose inner payload starts with F / E; non-trivial = every call succeeded, a container with >= 1 chunk was produced and decoded (or, for the hand-made Frame / nested containers, parsed and handed to both decoders); distinct = canonical text of the whole program / request".into();
+    s.rule = "seeded builder programs of 1..8 calls over {with_compression N/Z/4/E/F, with_chunk_size_unchecked 0/1/2/3/5/16/64/1024/default, with_encryption / without_encryption, add_data, add_mixed_data(None|Some), add_encrypted_data(index = position | foreign), add_chunk(ChunkData::new)} with Salsa20 / ARC4 / unknown cipher types, payload lengths 0, 1, cs-1, cs, cs+1, 2cs, 2cs+1, 3cs+r, random, first byte forced to N/Z/4/E/F in a third of them, constant / periodic / random content; plus an exhaustive sweep of one- and two-call programs over {add_data, add_mixed_data, add_encrypted_data, add_chunk}^2 x payload lengths {0,1,cs-1,cs,cs+1,2cs,2cs+1} x modes x {plain, Salsa20, ARC4}; plus the entry points outside the builder: BlteFile::compress exhaustively over chunk sizes {0,1,2,4,5,64} x lengths {0,1,cs-1,cs,cs+1,2cs,2cs+1,3cs+2} x modes N/Z/4/E/F and seeded random (chunk sizes 0..4096), single_chunk over modes x lengths, multi_chunk / multi_chunk_extended over vectors of 0..6 ChunkData::new chunks (random modes incl. E/F) and over hand-made from_compressed chunks (K only), nested containers as content; plus the family of highly compressible payloads in large single chunks: one chunk of 16 KiB / 32 KiB / 64 KiB / 256 KiB / 1 MiB (thorough: 12 sizes up to 4 MiB incl. 32 KiB +-1) of all-zero / constant / period 2..8 / mode-byte-then-constant / sparse content x modes Z and 4 x routes {add_data plain, add_data under Salsa20, add_data under ARC4, one of add_mixed_data / add_encrypted_data / add_chunk plain or encrypted, BlteFile::compress, BlteFile::single_chunk} (every content kind on every route up to 64 KiB, kinds in turn above; above 256 KiB every other route per mode in the quick tier), chunk size = payload / payload+1 / 2x / default / usize::MAX, half of the builder programs with a small chunk in front, plus 1 MiB at the default chunk size, 3x64 KiB+5 at 64 KiB and 2x32 KiB at 32 KiB (several such chunks, plain / Salsa20 / ARC4), plus one random program in 30 as a large-chunk program (chunk sizes 16 KiB .. 1 MiB / usize::MAX, payload lengths cs-1, cs, cs+1, 2cs+1, cs/2..cs, constant / periodic / sparse content, modes Z / 4, encryption in half of them); plus the family of large chunks of content that does NOT shrink (big.*): one chunk of LCG noise / dictionary-word text / alternating stretches of both at 8 KiB, 32 KiB, 64 KiB, 256 KiB each with -1 / +1, 16 KiB, 85196, 128 KiB, one of 1 MiB -1/0/+1 per content x mode (thorough: all three, and more) and two log-uniform sizes in 4 KiB .. 1 MiB, x modes N / Z / 4 plain and as inner mode under Salsa20 and under ARC4 x routes in rotation {add_data, add_data after the validated with_chunk_size(n), add_mixed_data, add_chunk, BlteFile::compress, BlteFile::single_chunk | add_data under with_encryption, add_mixed_data(Some), add_encrypted_data}, chunk size = payload / payload+1 / 2x / default / huge, half with a small chunk in front, plus payloads split into several such chunks (3x64 KiB+5, 200000 at a validated 64 KiB, 2x32 KiB); payloads are written in generator notation (~<kind><seed>.<off>*<len>) and answered with #len:fnv digests (ops build#, compress#, single#); a rotating sixth of the cases up to 64 KiB+1 and two 256 KiB chunks are evaluated by the Lean model as well, the rest are oracle-only `big` lines (both sides answer `oracle-only`); plus the builder's documented limits (limit.*): with_chunk_size at 0, 1, 1023, 1024, 1025, 16 MiB-1, 16 MiB, 16 MiB+1, 32 MiB, 2^62 (K+O), and oracle-only 16 MiB chunks: chunk size exactly 16 MiB / 16 MiB-1 with one piece of 16 MiB / 16 MiB+1 through add_data (alone, behind a small chunk, split), add_mixed_data, add_chunk (16 MiB and 16 MiB+1), compress, single_chunk in mode N; encrypted full chunks at chunk sizes 16 MiB-17, -16, -15, -1, -0 (thorough: every one of -17..0, both ciphers), add_mixed_data(Some) and add_encrypted_data with 16 MiB and 16 MiB+1; 16 MiB of noise in modes Z and 4 (thorough: and of words in Z plain and under Salsa20), single pieces of 16 MiB+1 of zeros / words through add_chunk (Z) and add_encrypted_data (Salsa20/4, ARC4/Z); one random program in six that sets a chunk size uses the validated setter at 0 / 1023 / 1024 / 1025 / 2048 / 4096 / 16 MiB / 16 MiB+1; the compression ratios reached are tallied (compress_chunk.ratio.*, compress_chunk.max-ratio.*, extra.max_compression_ratio_mode_*); hand-made containers with a Frame chunk (single-chunk and at every table position, both table formats) and encrypted chunks whose inner payload starts with F / E; non-trivial = every call succeeded, a container with >= 1 chunk was produced and decoded (or, for the hand-made Frame / nested containers, parsed and handed to both decoders); distinct = canonical text of the whole program / request".into();
     let mut rng = Rng::new(args.seed);
 
     if let Some(p) = &args.replay {
@@ -2430,7 +2455,9 @@ fn main() {
     let t1 = std::time::Instant::now();
     limit_family(&mut s, &mut rng, args.thorough(), &pool);
     let mut s = exit_if_hung(s);
-    eprintln!("c01: big_family {:.1} s, limit_family {:.1} s", (t1 - t0).as_secs_f64(), t1.elapsed().as_secs_f64());
+    if std::env::var_os("C01_TIMES").is_some() {
+        eprintln!("c01: big_family {:.1} s, limit_family {:.1} s", (t1 - t0).as_secs_f64(), t1.elapsed().as_secs_f64());
+    }
 
     // seeded random programs
     let n_prog = if args.thorough() { 20000 } else { 1500 };
